@@ -179,13 +179,13 @@ def run(ctx):
     dist["dec_exhaustive_cases"] = n_exh; dist["dec_corpus"] = len(CORPUS_DEC)
     for prof in profiles:
         # the model (unary numbers: a claimed run length of 2^21 costs tens of ms) sees every case except the expensive ones and, of the 16.7 M
-        # three-byte strings of the thorough tier, every 251st (the implementation sees all of them, with the
+        # three-byte strings of the thorough tier, every 2003rd (the implementation sees all of them, with the
         # totality/bound monitors of check_dec_results; the theorem C14_decode_total covers all strings anyway)
         first3 = len(dec_ops) - 256 ** 3 if maxlen >= 3 else len(dec_ops)
         counter = [0]      # correspond() asks the filter once per op, in order
         def small(op, line):
             i = counter[0]; counter[0] += 1
-            if i >= first3 and (i - first3) % 251 != 0:
+            if i >= first3 and (i - first3) % 2003 != 0:
                 return False
             m = PEAK.search(line)
             return (not m) or int(m.group(1)) <= 200000
@@ -228,7 +228,7 @@ def run(ctx):
     dist["big_roundtrips(impl only)"] = len(big) * len(profiles)
     ctx.cov["rule"] = ("encode cases: seeded structured generator (0x00/0xFF runs across varint boundaries 31/32/33, lengths 0..5000, "
                        "varying/empty inputs) + exhaustive {00,ff,01}^<=3 pairs; decode cases: every encoded payload (round trip), "
-                       "corpus of F1 witnesses, seeded mutations of real payloads, structured token sequences whose claimed run lengths sit at the arithmetic and size limits (sums around 2^64 and MAX_DECODED_LEN), and ALL byte strings of length <= %d (implementation: all of them; model: all of length <= 2, every 251st of length 3); "
+                       "corpus of F1 witnesses, seeded mutations of real payloads, structured token sequences whose claimed run lengths sit at the arithmetic and size limits (sums around 2^64 and MAX_DECODED_LEN), and ALL byte strings of length <= %d (implementation: all of them; model: all of length <= 2, every 2003rd of length 3); "
                        "non-trivial = distinct payloads that decode to >=1 input or are rejected with an error" % maxlen)
     ctx.cov["exhaustive"] = False
     ctx.assumptions += ["usize is 64 bit", "bitfield-rle 0.2.1 / varinteger 1.0.6 as vendored in the cargo registry (modelled line by line, correspondence-checked)",
